@@ -311,7 +311,7 @@ def sc_array_tf(layout, opt):
 
 
 def sc_model_fn(layout, opt):
-    m = gs.Matern(dim=2, var=1.1, len_scale=1.4, nu=1.3, anis=0.6, angles=0.4, nugget=0.1)
+    m = gs.Matern(dim=2, var=1.1, len_scale=1.4, nu=1.3, anis=0.6, angles=0.4 if opt.get("rot", True) else 0.0, nugget=0.1)
     fn = opt["fn"]
     if fn in ("cov_spatial", "vario_spatial", "cor_spatial", "isometrize", "anisometrize"):
         a = lay(POS2, layout)
@@ -421,7 +421,7 @@ def arg_cases(tier):
     add("normalizer", n=["ln", "bc", "bcs", "yj", "mod", "manly"], fn=["normalize", "denormalize", "derivative", "fit", "loglikelihood"], nd=[1, 2])
     add("mean_norm_trend_tools", fn=["apply", "remove"], mesh=["unstructured", "structured"], check=[True, False], stacked=[False, True], **mnt)
     add("array_transform", fn=["discrete", "discrete_equal", "discrete_expl", "discrete_wrapper", "boxcox", "zinnharvey", "force_moments", "lognormal", "uniform", "arcsin", "uquad"])
-    add("model_functions", fn=["variogram", "covariance", "correlation", "cor", "vario_nugget", "cov_nugget", "cov_spatial", "vario_spatial", "cor_spatial", "isometrize", "anisometrize", "spectrum", "spectral_density", "spectral_rad_pdf", "cov_yadrenko", "vario_yadrenko", "cor_yadrenko"])
+    add("model_functions", fn=["variogram", "covariance", "correlation", "cor", "vario_nugget", "cov_nugget", "cov_spatial", "vario_spatial", "cor_spatial", "isometrize", "anisometrize", "spectrum", "spectral_density", "spectral_rad_pdf", "cov_yadrenko", "vario_yadrenko", "cor_yadrenko"], rot=[True, False])
     add("public_helpers", fn=["get_scaling", "generator_call", "generator_nugget", "post_field", "krige_set_condition", "krige_get_mean"], nugget=[0.0, 0.3])
     add("geometry", fn=["latlon2pos", "pos2latlon", "generate_grid", "generate_st_grid", "rotated_main_axes"])
     out = []
